@@ -43,8 +43,8 @@ struct AppCb : public Server::Timer::ICallback { virtual void onActivated(); };
 struct MListener { bool alive; Server::Listener* h; ListenerCb* cb; int pendingConn; };
 struct MEst { bool alive, resolved, listenerAliveAtCreation; Server::Establisher* h; EstCb* cb; };
 struct MRaw { int fd; unsigned short localPort; bool accepted; int client; int unread; };     // connections made by the harness itself
-struct MClient { bool alive; Server::Client* h; ClientCb* cb; int raw; };
-struct Act { int kind, x; };   // 0 nothing, 1 listen, 2 remove listener, 3 raw connect, 4 establish x, 5 remove establisher x, 6 raw x writes, 7 remove client x, 8 interrupt
+struct MClient { bool alive, suspended; Server::Client* h; ClientCb* cb; int raw; };
+struct Act { int kind, x; };   // 0 nothing, 1 listen, 2 remove listener, 3 raw connect, 4 establish x, 5 remove establisher x, 6 raw x writes, 7 remove client x, 8 interrupt, 9 resume client x
 
 struct World
 {
@@ -67,6 +67,7 @@ struct World
     for(int k = 0; k < 2; ++k) { Act a = {es[k].alive ? 5 : 4, k}; m.push_back(a); }
     for(int k = 0; k < nraw; ++k) if(raw[k].fd >= 0 && raw[k].accepted && raw[k].client >= 0 && cl[raw[k].client].alive) { Act a = {6, k}; m.push_back(a); }
     for(int k = 0; k < ncl; ++k) if(cl[k].alive) { Act a = {7, k}; m.push_back(a); break; }
+    for(int k = 0; k < ncl; ++k) if(cl[k].alive && cl[k].suspended) { Act a = {9, k}; m.push_back(a); break; }
     { Act a = {8, 0}; m.push_back(a); }
     return m;
   }
@@ -76,7 +77,7 @@ struct World
     {
     case 1: return "listen"; case 2: return "remove listener"; case 3: return "a peer connects to the listening port";
     case 4: return a.x == 0 ? "establish 0 (to the listening port)" : "establish 1 (to a closed port)"; case 5: return vf::fmt("remove establisher %d", a.x);
-    case 6: return vf::fmt("peer %d writes", a.x); case 7: return vf::fmt("remove client %d", a.x); case 8: return "interrupt";
+    case 6: return vf::fmt("peer %d writes", a.x); case 7: return vf::fmt("remove client %d", a.x); case 8: return "interrupt"; case 9: return vf::fmt("resume client %d", a.x);
     }
     return "nothing";
   }
@@ -121,6 +122,7 @@ struct World
     case 6: { char b = 'x'; if(::send(raw[a.x].fd, &b, 1, MSG_NOSIGNAL) == 1) ++raw[a.x].unread; break; }
     case 7: removeClient(a.x); break;
     case 8: server->interrupt(); if(!interruptRequested) pollsSinceInterrupt = 0; interruptRequested = true; vf::hit("interrupts"); break;
+    case 9: cl[a.x].h->resume(); cl[a.x].suspended = false; break;
     }
   }
   void removeClient(int k)
@@ -142,9 +144,10 @@ struct World
   Server::Client::ICallback* adopt(Server::Client& client, int rawIdx, const std::string& where)
   {
     if(ncl >= 6) return 0;
-    bool refuse = !stopping && ch->choose(2) == 1;
-    if(refuse) { note(where + ": the application refuses the client", true); vf::hit("clients_refused"); return 0; }
-    MClient& c = cl[ncl]; c.cb = new ClientCb(); c.cb->slot = ncl; c.h = &client; c.alive = true; c.raw = rawIdx;
+    int how = stopping ? 0 : ch->choose(3);    // accept (default), refuse, accept and suspend at once (still inside the callback)
+    if(how == 1) { note(where + ": the application refuses the client", true); vf::hit("clients_refused"); return 0; }
+    MClient& c = cl[ncl]; c.cb = new ClientCb(); c.cb->slot = ncl; c.h = &client; c.alive = true; c.raw = rawIdx; c.suspended = false;
+    if(how == 2) { client.suspend(); c.suspended = true; note(where + ": the application suspends the new client", true); vf::hit("clients_suspended_in_callback"); }
     if(rawIdx >= 0) raw[rawIdx].client = ncl;
     ++ncl; vf::hit("clients_adopted");
     return c.cb;
@@ -194,6 +197,7 @@ struct World
   {
     MClient& c = cl[slot];
     if(!c.alive) { fail("client-after-remove", vf::fmt("onRead of client %d after remove() had returned", slot)); return; }
+    if(c.suspended) fail("read-while-suspended", vf::fmt("onRead delivered to client %d, which was suspended inside the callback that created it", slot));
     vf::hit("onRead");
     react(vf::fmt("onRead %d", slot));
     if(!cl[slot].alive) return;
@@ -226,14 +230,14 @@ struct World
   {
     if(li.alive && li.pendingConn > 0) return true;
     for(int k = 0; k < 2; ++k) if(es[k].alive && !es[k].resolved) return true;
-    for(int k = 0; k < nraw; ++k) if(raw[k].unread > 0 && raw[k].client >= 0 && cl[raw[k].client].alive) return true;
+    for(int k = 0; k < nraw; ++k) if(raw[k].unread > 0 && raw[k].client >= 0 && cl[raw[k].client].alive && !cl[raw[k].client].suspended) return true;
     return false;
   }
   void atIdle()
   {
     if(li.alive && li.pendingConn > 0) fail("acceptable-not-dispatched", vf::fmt("%d connection(s) wait at the listener but the loop went idle without onAccepted", li.pendingConn));
     for(int k = 0; k < 2; ++k) if(es[k].alive && !es[k].resolved) fail("connect-not-dispatched", vf::fmt("establisher %d got neither onConnected nor onAbolished before the loop went idle", k));
-    for(int k = 0; k < nraw; ++k) if(raw[k].unread > 0 && raw[k].client >= 0 && cl[raw[k].client].alive)
+    for(int k = 0; k < nraw; ++k) if(raw[k].unread > 0 && raw[k].client >= 0 && cl[raw[k].client].alive && !cl[raw[k].client].suspended)
       fail("readable-not-dispatched", vf::fmt("accepted client %d has unread data but the loop went idle without onRead", raw[k].client));
   }
   void run(vf::Chooser& c, bool trc)
